@@ -31,6 +31,8 @@ pub const OP_UNLOCK: u8 = 5;
 pub const OP_SPIN: u8 = 6;
 pub const OP_CELL: u8 = 7;
 pub const OP_SYS: u8 = 8;
+/// not an operation: the boundary right after a successful compare-exchange (post_point)
+pub const OP_AFTER_CAS: u8 = 9;
 pub const NOPK: usize = 9;
 
 pub const KIND_USIZE: u8 = 0;
@@ -77,6 +79,12 @@ pub mod ST {
     pub static mut nbox: usize = 0;
     // ghost verdicts
     pub static mut err: u32 = 0; // union of error codes
+    pub static mut nest_post_points: bool = false;
+    pub static mut cas_fail_at: usize = usize::MAX;
+    pub static mut weak_cas_no: usize = 0;
+    // enumeration harnesses: the nested operation runs exactly at this point index
+    pub static mut nth_point: usize = usize::MAX;
+    pub static mut point_no: usize = 0;
     pub static mut err_round: usize = usize::MAX; // earliest round at which an error was flagged
     pub static mut err_round_of: [usize; 32] = [usize::MAX; 32]; // ... per error code (bit number)
     // counters
@@ -564,12 +572,58 @@ pub fn point(kind: u8, var: usize, ord: Ordering) {
     }
 }
 
+/// NEST only, opt-in (`ST::nest_post_points`): a second chance for the harness's
+/// interrupt hook right AFTER a successful compare-exchange took effect.  The
+/// points before every operation cover all instruction boundaries as long as the
+/// code's plain (non-shim) accesses to shared cells directly follow the `get()`
+/// that produced the pointer; code that obtains the pointer first, performs an
+/// atomic operation and only then dereferences needs the boundary after it too.
+pub fn post_point(kind: u8, var: usize) {
+    unsafe {
+        if ST::quiet || ST::mode != NEST || !ST::nest_post_points {
+            return;
+        }
+        if ST::nest_depth < ST::nest_max_depth && ST::nest_budget > 0 {
+            ST::nest_depth += 1;
+            (HOOKS.interrupt)(kind, var);
+            ST::nest_depth -= 1;
+        }
+    }
+}
+
 /// A scheduling point that is not an access to a shim word (system calls, harness events).
 pub fn sys_point() {
     if unsafe { ST::quiet } {
         return;
     }
     point(OP_SYS, usize::MAX, Ordering::SeqCst)
+}
+
+/// Enumeration harnesses: is this call of the interrupt hook the one selected by
+/// `ST::nth_point`?  (Both are concrete, so symex folds the branch.)
+pub fn is_nth_point() -> bool {
+    unsafe {
+        let hit = ST::point_no == ST::nth_point;
+        ST::point_no += 1;
+        hit
+    }
+}
+/// Start one enumerated run: nested operation at point `p`, the `f`-th weak CAS fails.
+pub fn enumerate(p: usize, f: usize) {
+    unsafe {
+        ST::nth_point = p;
+        ST::point_no = 0;
+        ST::cas_fail_at = f;
+        ST::weak_cas_no = 0;
+        ST::cas_fails = 0;
+        ST::interrupts_taken = 0;
+    }
+}
+pub fn points_seen() -> usize {
+    unsafe { ST::point_no }
+}
+pub fn weak_cas_seen() -> usize {
+    unsafe { ST::weak_cas_no }
 }
 
 /// Called by the harness's `vshim_interrupt` when it decides to run something.
@@ -683,6 +737,16 @@ fn hb_access(var: usize, ord: Ordering, read: bool, wrote: bool, rmw: bool) {
 
 fn may_fail_spuriously() -> bool {
     unsafe {
+        // enumeration harnesses: exactly the n-th weak CAS (a concrete index) fails
+        if ST::cas_fail_at != usize::MAX {
+            let n = ST::weak_cas_no;
+            ST::weak_cas_no += 1;
+            if n == ST::cas_fail_at {
+                ST::cas_fails += 1;
+                return true;
+            }
+            return false;
+        }
         if ST::cas_fails < ST::cas_fail_budget && (ST::mode == LR || ST::mode == NEST) {
             if any_bool() {
                 ST::cas_fails += 1;
@@ -800,6 +864,7 @@ pub mod atomic {
                     if old == cur {
                         hb_access(self.id, ok, true, true, true);
                         wr(self.id, &self.v, new as u64);
+                        post_point(OP_AFTER_CAS, self.id);
                         Ok(old)
                     } else {
                         hb_access(self.id, fail, true, false, false);
@@ -818,6 +883,7 @@ pub mod atomic {
                     if old == cur && !may_fail_spuriously() {
                         hb_access(self.id, ok, true, true, true);
                         wr(self.id, &self.v, new as u64);
+                        post_point(OP_AFTER_CAS, self.id);
                         Ok(old)
                     } else {
                         hb_access(self.id, fail, true, false, false);
@@ -1404,6 +1470,10 @@ pub mod cell {
         pub static mut last_tid: [usize; NCELL] = [0; NCELL];
         pub static mut last_vc: [[u8; NT]; NCELL] = [[0; NT]; NCELL];
         pub static mut last_round: [usize; NCELL] = [0; NCELL];
+        // thread t accessed a cell whose previous access (by another thread, executed
+        // earlier) happened in a LATER round: cell contents are not round-versioned,
+        // so t may be looking at a value from its future
+        pub static mut future_access: [bool; NT] = [false; NT];
         pub static mut accessed: [bool; NCELL] = [false; NCELL];
         pub static mut accesses: u32 = 0;
     }
@@ -1447,6 +1517,9 @@ pub mod cell {
     }
     unsafe impl<T: Send> Send for UnsafeCell<T> {}
 
+    pub fn future_access(tid: usize) -> bool {
+        unsafe { CELLS::future_access[tid] }
+    }
     fn cell_access(addr: usize) {
         unsafe {
             CELLS::accesses += 1;
@@ -1471,6 +1544,9 @@ pub mod cell {
             }
             let t = ST::tid;
             let now = hb_tick();
+            if CELLS::accessed[idx] && CELLS::last_tid[idx] != t && CELLS::last_round[idx] > ST::round && t < NT {
+                CELLS::future_access[t] = true;
+            }
             if CELLS::accessed[idx] && CELLS::last_tid[idx] != t {
                 // The previous access must happen-before this one, or this one
                 // before it (the threads are executed one after another, so the
@@ -2218,6 +2294,10 @@ pub mod sync {
         }
         pub fn is_completed(&self) -> bool {
             unsafe { *self.done.get() }
+        }
+        /// Harness: forget that the initialisation ran.
+        pub fn verif_reset(&self) {
+            unsafe { *self.done.get() = false }
         }
     }
 }
